@@ -10,3 +10,16 @@ Definition c13_chk : checker := fun now d dir ob =>
   | _ => []
   end.
 Definition C13_mon := mon c13_chk.
+
+(* 1302: a store batch failed as a whole because one of its commands hit a constraint - every submission of the batch
+   is answered with an error and none of their writes is kept.  Client-chosen ids can do that: the derived callback /
+   task ids "__resume:<root>:<promise>" and "__notify:<promise>:<id>" are not injective when ids contain ':'
+   (Props/C05.v, C05_derived_id_injective_refuted), so the completion of a promise can try to create a task whose id
+   is taken; that completion - by a client, by a lazy time-out or by the sweep - fails every time it is tried, and
+   takes the other transactions of its batch down with it: stored state that poisons the server (DESIGN D2). *)
+Definition c13p_chk : checker := fun now d dir ob =>
+  match dir with
+  | DExec _ => flat_map (fun o => match o with OExec _ None _ => [1302] | _ => [] end) ob
+  | _ => []
+  end.
+Definition C13p_mon := mon c13p_chk.
